@@ -37,7 +37,7 @@ class _BaseLSML(MahalanobisMixin):
     if weights is None:
       self.w_ = np.ones(vab.shape[0])
     else:
-      self.w_ = weights
+      self.w_ = np.array(weights, dtype=float)  # copy, do not alter the input
     self.w_ /= self.w_.sum()  # weights must sum to 1
     M, prior_inv = _initialize_metric_mahalanobis(
         quadruplets, self.prior,
